@@ -210,7 +210,18 @@ def canonicalise(repo, modules):
         order = {n: i for i, n in enumerate(sig)}
         call.keywords = sorted(by_name.values(), key=lambda k: (order.get(k.arg, len(sig)), k.arg))
 
+    class DictCalls(ast.NodeTransformer):
+        """dict(a=x, b=y) is the display {'a': x, 'b': y} (unless `dict` is rebound in the module, which the package does not do)."""
+
+        def visit_Call(self, node):
+            self.generic_visit(node)
+            if isinstance(node.func, ast.Name) and node.func.id == "dict" and not node.args and node.keywords and all(k.arg is not None for k in node.keywords):
+                return ast.copy_location(ast.Dict(keys=[ast.Constant(value=k.arg) for k in node.keywords], values=[k.value for k in node.keywords]), node)
+            return node
+
     if isinstance(modules, tuple) and modules and modules[0] == "function":
+        DictCalls().visit(modules[1])
+        ast.fix_missing_locations(modules[1])
         # canonicalise one detached function (a reference model) as if it stood in class `cls` of module `mod`
         _, fn_node, mod, cls = modules
         for node in ast.walk(fn_node):
@@ -218,6 +229,9 @@ def canonicalise(repo, modules):
                 rewrite(node, mod, cls, fn_node)
         return
     for mod in modules:
+        DictCalls().visit(mod.tree)
+        ast.fix_missing_locations(mod.tree)
+
         def walk(node, cls, fn):
             for ch in ast.iter_child_nodes(node):
                 inner, infn = cls, fn
